@@ -39,15 +39,19 @@ def interactive_msg(msg, filltext=None):
         print(msg, file=sys.stderr)
 
 
-def error_msg(msg, filltext=None):
+def error_msg(msg, filltext=None, prefix=None):
     """Writes an error message.
 
+    The lines of the message are shielded with `prefix` or, when that
+    is `None`, with the current message prefix.
     """
     global _prefix
+    if prefix is None:
+        prefix = _prefix
     msg = textwrap.dedent(str(msg))
     if filltext is not None and filltext > 0:
-        msg = textwrap.fill(msg, width=filltext - len(_prefix))
-    msg = textwrap.indent(msg, _prefix, lambda line: True)
+        msg = textwrap.fill(msg, width=filltext - len(prefix))
+    msg = textwrap.indent(msg, prefix, lambda line: True)
     print(msg, file=sys.stderr)
 
 
